@@ -3,7 +3,8 @@
 (* references the generated calls pass are valid on the real object) and prints the history of every behaviour as one     *)
 (* case: {init, ops: [{op, id, a, b, c}]}.  Arguments range over 0..MaxIx (in range, at the end, out of range).            *)
 (* GEN_MODE = "enum": constant-level families around every removal (every index x every start object, removal down to    *)
-(* the empty list, removal on the empty object, create / remove group orders).                                           *)
+(* the empty list, removal on the empty object, create / remove group orders, references above / at / below the removed  *)
+(* index in every referrer list).                                                                                        *)
 EXTENDS MC_WmoEditor, Json, IOUtils, SequencesExt
 VARIABLES ghist, ginit, gdone
 GInit == /\ Init /\ ghist = <<>> /\ gdone = FALSE
@@ -18,7 +19,7 @@ GNext == GStep \/ GDone
 EnumMode == "GEN_MODE" \in DOMAIN IOEnv /\ IOEnv.GEN_MODE = "enum"
 Case(k, ops) == [kind |-> "enum", init |-> k, ops |-> ops]
 R(name, i) == O(name, 0, i, 0, 0)
-G(id, g, nv, m) == O("add_group", id, g, nv, m)
+G(id, g, nv, m) == [O("add_group", id, g, nv, m) EXCEPT !.d = 0]
 Save == <<O("save_root", 0, 0, 0, 0), O("save_group", 0, 0, 0, 0), O("save_group", 0, 1, 0, 0)>>
 Removers == {"remove_texture", "remove_material", "remove_group", "remove_doodad", "remove_doodad_set"}
 \* every removal at every index of objects 1 / 2 with both groups loaded, then save
@@ -36,6 +37,13 @@ Groups == {Case(k, <<O("create_group", 60, 0, 0, 0), O("add_vertex", 61, g, 0, 0
                      O("add_vertex", 63, g, 0, 0), O("convert", 0, 2, 0, 0), O("convert", 0, 2, 0, 0), O("convert", 0, 0, 0, 0)>> \o Save) :
            k \in {0, 1}, g \in 0..3, i \in 0..3}
          \cup {Case(1, <<G(40, 0, 3, 0), G(41, 1, 2, 1), O("create_group", 60, 0, 0, 0), R("remove_group", i), R("remove_group", j)>> \o Save) : i \in 0..3, j \in 0..2}
-EnumCases == SetToSeq(Singles) \o SetToSeq(Doubles) \o SetToSeq(Verts) \o SetToSeq(Empties) \o SetToSeq(Groups)
+\* references above / at / below the removed index in every referrer list (batch + materials list: 1 and 0; doodad_refs: 2 and 1;
+\* portal references of object 1: 0, 1, 1), every remover at every index, then a second removal at 0
+GD(id, g, nv, m, dref) == [O("add_group", id, g, nv, m) EXCEPT !.d = dref]
+Refs == {Case(1, <<GD(40, 0, 3, 1, 2), GD(41, 1, 2, 0, 1), R(n, i), R(n, 0)>> \o Save) : n \in Removers, i \in 0..3}
+\* add_vertex on a group that carries normals (the 3-vertex shape) and on one that does not, then a removal at every index
+Attrs == {Case(1, <<G(40, 0, nv, 0), O("add_vertex", 50, 0, 0, 0), O("add_vertex", 51, 0, 0, 0), O("remove_vertex", 0, 0, i, 0)>> \o Save) :
+          nv \in {2, 3}, i \in 0..5}
+EnumCases == SetToSeq(Attrs) \o SetToSeq(Refs) \o SetToSeq(Singles) \o SetToSeq(Doubles) \o SetToSeq(Verts) \o SetToSeq(Empties) \o SetToSeq(Groups)
 ASSUME EnumMode => ndJsonSerialize(IOEnv.CASES, EnumCases) /\ PrintT(<<"GENERATED", Len(EnumCases)>>)
 =============================================================================
